@@ -164,7 +164,8 @@ def _stat_chunk(arg):
     """one chunk of seeded runs of fast_SIR / fast_SIS / Gillespie: histogram of the node-state vector at time T"""
     import random
     import numpy as np
-    (entry, n, w, g, tau, gam, st0, T, tmax, nruns, seed, weighted) = arg
+    (entry, n, w, g, tau, gam, st0, T, tmax, nruns, seed, weighted) = arg[:12]
+    tmin = arg[12] if len(arg) > 12 else 0.0
     EoN = _F["EoN"]
     G = netepi.build_graph(n, w, g)
     nodes = list(range(1, n + 1))
@@ -179,12 +180,14 @@ def _stat_chunk(arg):
     if R0:
         kw["initial_recovereds"] = R0
     if tmax is not None:
-        kw["tmax"] = tmax
+        kw["tmax"] = tmin + tmax
+    if tmin != 0.0:
+        kw["tmin"] = tmin
     obs = {}
     try:
         for _ in range(nruns):
             sim = f(G, tau * common.RATE_UNIT, gam * common.RATE_UNIT, **kw)
-            st = sim.get_statuses(nodelist=nodes, time=T)
+            st = sim.get_statuses(nodelist=nodes, time=tmin + T)
             k = tuple(st[u] for u in nodes)
             obs[k] = obs.get(k, 0) + 1
     except Exception as ex:
@@ -196,11 +199,12 @@ def law_at_T(chk, entry, sis, case, per, label):
     """the law of the full node-state vector at time T of `entry` against p0 expm(QT), Q assembled from the
     TLC-emitted NetEpiOne transitions; returns (p value, detail, N, observed, expected)"""
     from harness import master
-    (n, w, g, tau, gam, st0, T, weighted) = case
+    (n, w, g, tau, gam, st0, T, weighted) = case[:8]
+    tmin0 = float(case[8]) if len(case) > 8 else 0.0      # the start time of the real calls (the law is shift invariant)
     trans, res = master.emit_one(n, w, g, tau, gam, sis)
     chk.add_tlc("NetEpiOne generator for the law layer n=%d (%s)" % (n, label), res)
     exp = master.distribution_at(trans, n, sis, st0, T)
-    args = [(entry, n, w, g, tau, gam, st0, T, (T + 0.5) if sis else None, per, chk.seed * 1000 + k, weighted) for k in range(16)]
+    args = [(entry, n, w, g, tau, gam, st0, T, (T + 0.5) if sis else None, per, chk.seed * 1000 + k, weighted, tmin0) for k in range(16)]
     obs = {}
     for o in pool_map(_stat_chunk, args):
         if isinstance(o, str):
@@ -243,7 +247,7 @@ def statistical_part(chk, sis):
 # stand; every other disagreement only says that the implementation consumes its random numbers differently from the
 # implementation-shaped specification (FastSISMarkov / the binomial protocol of fast_SIR) - which a law-preserving
 # refactoring may legitimately do.  Those are decided at the level the property is stated at: the law.
-DIRECT = ("history-invalid",)
+# (kinds that the replay functions mark with a trailing "~")
 
 
 def escalate(chk, sis, entry, mismatches, case_of, call=None):
@@ -254,10 +258,11 @@ def escalate(chk, sis, entry, mismatches, case_of, call=None):
     per = 6000 if chk.tier == "quick" else 25000
     done = {}
     for (kind, cls), items in sorted(mismatches.items()):
-        if kind in DIRECT or kind.startswith("exception:"):
+        if not kind.endswith("~"):
             for (i, detail, scn) in items[:3]:
                 chk.violation("%s|%s|%s" % (entry, kind, cls), detail + " [scenario %d]" % i, {"scenario": scn})
             continue
+        kind = kind[:-1]
         worst = None
         tried = 0
         for (i, detail, scn) in items:
@@ -408,7 +413,7 @@ def fast_part(chk, sis, EoN):
             raise common.MachineryFailure("fast_SIR protocol: only %d of %d scenarios usable" % (nrun, len(scn)))
 
         def case_of(sc):
-            return (sc["n"], _tri(sc["adj"], sc["n"]), (1,) * sc["n"], 1, 2, tuple(sc["init"]), 0.8, False)
+            return (sc["n"], _tri(sc["adj"], sc["n"]), (1,) * sc["n"], 1, 2, tuple(sc["init"]), 0.8, False, event_scn.fl(sc["tmin"]))
         escalate(chk, sis, "fast_SIR(unweighted path)", mism, case_of, call="fast_SIR")
     else:
         scn = fast_sis.scenarios(chk.seed, 1200 if chk.tier == "quick" else 12000)
@@ -438,7 +443,8 @@ def fast_part(chk, sis, EoN):
         def case_of(sc):
             if sc["tau"] == 0:
                 return None
-            return (sc["n"], _tri(sc["w"], sc["n"]), tuple(sc["g"]), sc["tau"], sc["gam"], tuple(sc["init"]), 0.6, bool(sc["weighted"]))
+            return (sc["n"], _tri(sc["w"], sc["n"]), tuple(sc["g"]), sc["tau"], sc["gam"], tuple(sc["init"]), 0.6, bool(sc["weighted"]),
+                    float(sc["tmin"]) - float(sc.get("shift", 0)))
         escalate(chk, sis, "fast_SIS", mism, case_of)
     statistical_part(chk, sis)
 
